@@ -10,12 +10,16 @@
    counter never decreases whatever happened before and whatever other threads
    draw, and each new trace id is strictly larger than the counter - hence than
    every id handed out earlier in the history.
-   FULL STATEMENT, tied by correspondence only: the result of every call is the
-   same from every reachable counter state (invariance of the evaluator under
-   order-preserving renaming of trace ids). *)
+   FULL STATEMENT, PROVED for the design /repo now implements (increasing
+   supply): C19_result_independent_of_history - for EVERY program, whatever
+   counter value the earlier calls (failed or not) left behind and whatever other
+   threads draw meanwhile, the call returns the same number / raises the same way
+   as from the initial state.  Proof: the evaluator commutes with every strictly
+   increasing renaming of trace ids (RenameProof.v, RenameEval.v: eval_ren), and
+   a run from counter t under interference n IS the renamed canonical run. *)
 From Coq Require Import List ZArith.
 Import ListNotations.
-From AG Require Import Toposort Tagged Tower Run08 TaggedProof.
+From AG Require Import Toposort Tagged Tower Run08 TaggedProof RenameProof RenameEval.
 
 Theorem C19_depth_counter_monotone_and_restored :
   forall (K : Type) k0 k1 kadd ksub kmul kopp kF ksign kpos kofZ fuel env e s r s',
@@ -44,6 +48,22 @@ Proof.
   - exact (enter_calm K).
 Qed.
 Print Assumptions C19_increasing_supply_never_reuses_an_id.
+
+Theorem C19_result_independent_of_history :
+  forall (K : Type) k0 k1 kadd ksub kmul kopp kF ksign kpos kofZ fuel e top0 noise0,
+    (-1 <= top0)%Z -> Forall (fun d => (0 <= d)%Z) noise0 ->
+    observe K (eval K k0 k1 kadd ksub kmul kopp kF ksign kpos kofZ Mono fuel [] e
+                    {| top := top0; store := []; noise := noise0 |})
+    = observe K (eval K k0 k1 kadd ksub kmul kopp kF ksign kpos kofZ Mono fuel [] e (init_state K)).
+Proof.
+  intros K k0 k1 kadd ksub kmul kopp kF ksign kpos kofZ.
+  exact (increasing_supply_noninterference K k0 k1 kadd ksub kmul kopp kF ksign kpos kofZ).
+Qed.
+Print Assumptions C19_result_independent_of_history.
+
+(* the supply /repo implements is the one the theorem is about *)
+Example C19_supply_is_increasing : SUPPLY = Mono.
+Proof. reflexivity. Qed.
 
 (* a failure inside an inner differentiation, caught by the enclosing one: the
    result is the fresh-interpreter result from every starting counter, under
